@@ -342,6 +342,7 @@ func (w *World) intTable(pkgPath, name string) ([]string, error) {
 
 func init() {
 	extraEngines["C18"] = append(extraEngines["C18"], censusTLD)
+	pkgInvCensus["tld"] = censusTLD
 }
 
 // censusTLD: every entry of the generated delegation table is keyed by its own lower-case
